@@ -82,7 +82,19 @@ def run(i_m):
         orig = s[a:b]
         open(p, "w").write(s[:a] + rep + s[b:])
         env = dict(os.environ, CARGO_NET_OFFLINE="true", CARGO_TARGET_DIR="/tmp/scr/auto/target_%d" % (i % 3))
-        t = subprocess.run(["cargo", "test", "--offline", "--lib"], cwd=repo, capture_output=True, text=True, env=env, timeout=900)
+        # own process group: a mutant that makes a test allocate or loop without end must be killed together with cargo
+        pr = subprocess.Popen(["cargo", "test", "--offline", "--lib"], cwd=repo, stdout=subprocess.PIPE, stderr=subprocess.PIPE, text=True, env=env, start_new_session=True)
+        try:
+            so, se = pr.communicate(timeout=900)
+        except subprocess.TimeoutExpired:
+            import signal
+            os.killpg(pr.pid, signal.SIGKILL)
+            pr.communicate()
+            raise
+        class _T:
+            pass
+        t = _T()
+        t.stdout, t.stderr, t.returncode = so, se, pr.returncode
         if "error" in t.stderr and "could not compile" in t.stderr:
             return i, "NOCOMPILE", f, orig, rep, line, "", []
         tests = "killed" if ("FAILED" in t.stdout or t.returncode != 0) else "survived"
